@@ -55,6 +55,9 @@ func (p *c14Plugin) Load(s server.Server) error {
 	defer c14mu.Unlock()
 	if c14cur != nil {
 		c14cur.loads[p.name]++
+		if w := c14cur.w; w != nil {
+			w.RecHook(0, "plg", c14Log{p.name, "Load", "enter", ""})
+		}
 	}
 	return nil
 }
@@ -63,6 +66,9 @@ func (p *c14Plugin) Unload() error {
 	defer c14mu.Unlock()
 	if c14cur != nil {
 		c14cur.unloads[p.name]++
+		if w := c14cur.w; w != nil {
+			w.RecHook(0, "plg", c14Log{p.name, "Unload", "enter", ""})
+		}
 	}
 	return nil
 }
@@ -528,7 +534,7 @@ func oracleC14(p *sim.Plan, out *sim.Outcome) []sim.Violation {
 		return -1
 	}
 	for _, l := range logs {
-		if l.Hook == "OnAuth" {
+		if l.Hook == "OnAuth" || l.Hook == "Load" || l.Hook == "Unload" {
 			continue
 		}
 		if l.Phase == "enter" {
